@@ -76,7 +76,7 @@ def _check(lib, expected, mode):
             else:
                 if e["key"] in dupfield_keys:
                     cls.add("live-after-dupfield-entry")
-                m = _entry_matches(b, e, values=(mode != "parse_string"))
+                m = _entry_matches(b, e, values=(not mode.startswith("parse_string")))
                 if m:
                     return (f"live-entry:{mode}", f"block {i}: {m}", repr(splitcheck._rec(e))), cls
                 live_e[e["key"]] = b
@@ -92,7 +92,7 @@ def _check(lib, expected, mode):
                 if type(inner) is not String or inner.key != e["key"] or inner.value != e["value"]:
                     return (f"duplicate-string-content:{mode}", splitcheck.describe_block(inner), repr(splitcheck._rec(e))), cls
             else:
-                if type(b) is not String or b.key != e["key"] or (mode != "parse_string" and b.value != e["value"]):
+                if type(b) is not String or b.key != e["key"] or (not mode.startswith("parse_string") and b.value != e["value"]):
                     return (f"live-string:{mode}", splitcheck.describe_block(b), repr(splitcheck._rec(e))), cls
                 live_s[e["key"]] = b
             if e["key"] in live_e or any(x["kind"] == "entry" and x["key"] == e["key"] for x in expected):
@@ -113,8 +113,18 @@ def _check(lib, expected, mode):
 def o_deriv(deriv):
     text, expected = bibgen.render(deriv)
     cls = set()
-    for mode in ("splitter", "parse_string"):
-        lib = Splitter(text).split() if mode == "splitter" else bibtexparser.parse_string(text)
+    # equivalent spellings of the default parse: nothing given / the documented default stack passed explicitly / an
+    # empty library passed explicitly (which of the two extra spellings runs is picked by the length of the text)
+    modes = ["splitter", "parse_string", "parse_string:explicit-default-stack" if len(text) % 2 else "parse_string:library=Library()"]
+    for mode in modes:
+        if mode == "splitter":
+            lib = Splitter(text).split()
+        elif mode == "parse_string":
+            lib = bibtexparser.parse_string(text)
+        elif mode == "parse_string:explicit-default-stack":
+            lib = bibtexparser.parse_string(text, parse_stack=bibtexparser.middlewares.default_parse_stack())
+        else:
+            lib = bibtexparser.parse_string(text, library=Library())
         f, c = _check(lib, expected, mode)
         cls |= c
         if f:
